@@ -208,6 +208,8 @@ def run(ctx):
     ctx.check('R3', 'Pool.run keeps `_closed` across runs', '_closed' not in reinit, 'Pool.run', 'closed-set-reset',
               'Pool.run forgets which workers are dead: the next run hands work to dead workers', where=loc(run, run.node))
     # restart re-enables workers: restart_workers must drop the old id from _closed? (ids change for process/remote; thread ids change too)
+    from .c07 import check_enqueue_callers
+    check_enqueue_callers(ctx, pool, run, run.nested, rule='R3')
     # ---------------------------------------------------------------- R4 guard
     fin = any(isinstance(s, ast.Assign) and any(is_self_attr(x, '_map_guard') for x in s.targets) and isinstance(s.value, ast.Constant) and s.value.value is False for s in tries[0].finalbody)
     ctx.check('R4', 'Pool.run clears the map guard in a finally', fin, 'Pool.run', 'map-guard-not-reset',
